@@ -448,7 +448,7 @@ pub fn record(o: &Opts) -> Res<()> {
     let thorough = o.thorough();
     let part = o.opt("--part").unwrap_or_else(|| "all".into());
     let want = |p: &str| part == "all" || part.split(',').any(|x| x == p);
-    let scale = if thorough { 8 } else { 1 };
+    let scale = if thorough { 32 } else { 1 };
     if want("k1") { for _ in 0..(10 * scale) { let n = rng.gen_range(60..140); ec_history(&mut out, &mut rng, "k1", n, 20); } }
     if want("r1") { for _ in 0..(5 * scale) { let n = rng.gen_range(40..90); ec_history(&mut out, &mut rng, "r1", n, 20); } }
     if want("congruent") { congruent_history(&mut out, &mut rng, "k1"); congruent_history(&mut out, &mut rng, "r1"); }
